@@ -152,6 +152,13 @@ func x2Configs(prop, tier string) []*X2Config {
 				res = append(res, &X2Config{Name: prop + "/reload-reverses-dependencies/" + g.n, Cfgs: []PipeCfg{a, b}, Depth: g.d, Reload: true, Symmetry: false, Drain: true, Props: props(prop)})
 			}
 		}
+		if prop == "C02" {
+			// a diamond whose topological order is not its name order, with saves while a job of it waits (a save must not
+			// touch the task list of a live job)
+			g := map[string][]string{"checkout": nil, "setup": {"checkout"}, "build_api": {"setup"}, "build_ui": {"setup"}, "deploy": {"build_api", "build_ui"}}
+			pc := PipeCfg{Conc: 1, QL: -1, Graph: g}
+			res = append(res, &X2Config{Name: "C02/saves-while-a-diamond-waits", Cfgs: []PipeCfg{pc}, Prefix: []XEvent{{Kind: "S", P: "p"}, {Kind: "S", P: "p"}}, Depth: depth(6, 7), Save: true, Symmetry: false, Drain: true, Props: props("C02")})
+		}
 		if prop == "C06" || prop == "C03" || prop == "C01" {
 			// saves with retention reorder the runner's job list (a removed job is replaced by the last one): from a state
 			// with one finished job, one running and three waiting, every history of saves, cancels, completions and requests
